@@ -649,8 +649,9 @@ class DateType(_CassandraType):
 
     @staticmethod
     def deserialize(byts, protocol_version):
-        timestamp = int64_unpack(byts) / 1000.0
-        return util.datetime_from_timestamp(timestamp)
+        # whole milliseconds: a float number of seconds is off by microseconds far from the epoch
+        timestamp = int64_unpack(byts)
+        return util.utc_datetime_from_ms_timestamp(timestamp).replace(tzinfo=None)
 
     @staticmethod
     def serialize(v, protocol_version):
